@@ -20,6 +20,7 @@ func checkC11(p *Program, r *Report) {
 		"R3 all results come back: none -> nil value, one -> that very value, several -> a list built by a loop that appends once per element; for VM functions value and error are unboxed from results 0 and 1 and a non-nil error wins. " +
 		"R4 bindings are stored and returned untouched in package env. " +
 		"R5 the callback adapter boxes every incoming argument, passes the VM function's result through the result protocol with failure -> panic on every path, and converts results to Out(rt, i). " +
+		"R13 a bulk copy (reflect.Copy) in package vm whose element count is dropped copies into a destination that was made with the source's own length on every path: reflect.Copy stops silently at the shorter side, so a fixed-length destination (an array) loses elements where the element-by-element conversion reports an error. " +
 		"R6 a call node built from another node copies every field they share; member lookups all use the node's Name and the method lookup on the value precedes the pointer indirection.")
 	r.Assume("the conversion table for all (source kind, target kind) pairs, numeric truncation, and which Go signatures a host registers are not decided")
 	m, err := buildVMModel(p)
@@ -50,6 +51,7 @@ func checkC11(p *Program, r *Report) {
 	c11Env(p, r)
 	c11Adapter(p, r, m, sums)
 	c11Forwarding(p, r, m)
+	c11BulkCopy(p, r, m, "C11.R13")
 }
 
 type symI struct {
@@ -2356,4 +2358,104 @@ func c11AddrOfSlot(p *Program, r *Report, m *vmModel) {
 		}
 	}
 	r.Floor("C11.R11", n, 2)
+}
+
+// c11BulkCopy (R13): reflect.Copy(dst, src) copies min(len) elements and says how many. Where that count is dropped, dst
+// must have been made with src's own length on every path that reaches the copy (reflect.MakeSlice(t, src.Len(), ...));
+// a destination of fixed length (reflect.New(arrayType).Elem()) silently keeps only a prefix.
+// Expected instances on today's tree: none (the converters copy element by element).
+func c11BulkCopy(p *Program, r *Report, m *vmModel, rule string) {
+	n := 0
+	for _, fn := range SrcFuncs(m.sp) {
+		k := 0
+		for _, b := range fn.Blocks {
+			for _, in := range b.Instrs {
+				c, ok := in.(*ssa.Call)
+				if !ok {
+					continue
+				}
+				if o := calleeObj(c); o == nil || !isFuncNamed(o, "reflect", "", "Copy") {
+					continue
+				}
+				n++
+				k++
+				inst := fmt.Sprintf("%s|reflect.Copy #%d", funcName(fn), k)
+				used := false
+				for _, ref := range *c.Referrers() {
+					if _, isDbg := ref.(*ssa.DebugRef); !isDbg {
+						used = true
+					}
+				}
+				if used {
+					r.OK(rule, inst, p.Pos(c.Pos()), "the number of copied elements is used")
+					continue
+				}
+				src := c.Call.Args[1]
+				if sv := spilledValue(src); sv != nil {
+					src = sv
+				}
+				sameSrc := func(v ssa.Value) bool {
+					if sv := spilledValue(v); sv != nil {
+						v = sv
+					}
+					return v == src
+				}
+				lenOfSrc := func(v ssa.Value) bool {
+					lc, ok := v.(*ssa.Call)
+					if !ok || lc.Call.IsInvoke() || len(lc.Call.Args) != 1 {
+						return false
+					}
+					if o := calleeObj(lc); o == nil || !isFuncNamed(o, "reflect", "Value", "Len") {
+						return false
+					}
+					return sameSrc(lc.Call.Args[0])
+				}
+				seen := map[ssa.Value]bool{}
+				var sized func(v ssa.Value, d int) bool
+				sized = func(v ssa.Value, d int) bool {
+					if d > 8 {
+						return false
+					}
+					if seen[v] {
+						return true
+					}
+					seen[v] = true
+					if sv := spilledValue(v); sv != nil {
+						v = sv
+					}
+					switch x := v.(type) {
+					case *ssa.Phi:
+						for _, e := range x.Edges {
+							if !sized(e, d+1) {
+								return false
+							}
+						}
+						return true
+					case *ssa.Call:
+						if o := calleeObj(x); o != nil && isFuncNamed(o, "reflect", "", "MakeSlice") && len(x.Call.Args) == 3 {
+							return lenOfSrc(x.Call.Args[1])
+						}
+					case *ssa.UnOp:
+						if al, ok := x.X.(*ssa.Alloc); ok && x.Op == token.MUL {
+							// a local assigned on several paths: every stored value was made with the source's length
+							stores := 0
+							for _, ref := range *al.Referrers() {
+								if st, ok := ref.(*ssa.Store); ok && st.Addr == ssa.Value(al) {
+									stores++
+									if !sized(st.Val, d+1) {
+										return false
+									}
+								}
+							}
+							return stores > 0
+						}
+					}
+					return false
+				}
+				r.Check(sized(c.Call.Args[0], 0), rule, inst, p.Pos(c.Pos()), "the destination was made with the source's length on every path",
+					"reflect.Copy's element count is dropped and the destination is not made with the source's own length on every path: where the destination is shorter (a fixed-length array) the remaining elements are lost silently instead of being reported")
+			}
+		}
+	}
+	r.Note(rule+" bulk copies", []string{fmt.Sprintf("%d reflect.Copy call(s) in package vm", n)})
 }
